@@ -36,6 +36,8 @@ func Profile(prop string) GenOpts {
 		o.POnce, o.PWhenChanged, o.PPassV, o.PCall, o.PEnvUse, o.PPair = 0.35, 0.3, 0.6, 0.35, 0.3, 0.4
 	case "C07":
 		o.MaxDeps, o.Ns, o.POnce, o.PCall = 3, []int{1, 1, 2, 2, 3, 0}, 0.25, 0.3
+		o.PDefer, o.PDeferCall, o.PFail = 0.1, 0.12, 0.15
+		o.PGuard, o.Guards = 0.15, []string{"platform", "uptodate", "precond"}
 	case "C13":
 		o.PForceAll = 0.1
 		o.PGuard, o.Guards, o.PForce, o.PYes = 0.35, []string{"platform", "platreq", "requires", "requires2", "enum", "precond", "prompt", "uptodate", "internal"}, 0.15, 0.3
